@@ -74,7 +74,7 @@ pub fn vector_set(vm: &mut Vm) -> Result<VCell, Error> {
 
 pub fn vector_fill(vm: &mut Vm) -> Result<VCell, Error> {
     pop_argc(vm, 2, Some(2), "vector-fill!")?;
-    let value = vm.heap.get(vm.stack.pop()?);
+    let value = vm.stack.pop()?.clone();
     let vector = pop_vector(vm)?;
     for idx in 0..vector.len() {
         vector.put(idx, value.clone());
